@@ -457,7 +457,9 @@ func runC03(c *c03Case) (v *vcommon.Violation, nontrivial, inconclusive bool) {
 				}
 			}
 			for _, k := range want {
-				if !seen[k] {
+				// a key whose primary owner was lost lives on in its backup copy only: Get finds it there (asserted
+				// above), a scan walks the primary fragments - what a scan yields after a failover is not stated
+				if !seen[k] && (failures == 0 || len(holders[k]) > 0) {
 					return bad("scan-missing", "the final scan does not yield %s", k), nontrivial, false
 				}
 			}
